@@ -6,7 +6,7 @@ for P in sys.argv[1:]:
         src = f"/tmp/wt_{P}/seed_out/{k}"
         if not os.path.exists(src + "/patch.diff"):
             continue
-        line = [l for l in open("/tmp/seedconf/" + {"C01":"A","C05":"A","C07":"A","C08":"A","C09":"A","C11":"B","C12":"B","C14":"B","C15":"B","C16":"B"}.get(P,"C") + ".log") if l.startswith(f"{P}/{k}:")]
+        line = [l for l in open("/tmp/seedconf/" + {"C02":"A","C04":"A","C06":"A","C10":"B","C13":"B","C17":"B"}.get(P,"C") + ".log") if l.startswith(f"{P}/{k}:")]
         assert line and "clean rc=0 patched rc=1 tests rc=0" in line[0], (P, k, line)
         dst = f"/verif/seeded/{P}-{k}"
         os.makedirs(dst, exist_ok=True)
